@@ -716,6 +716,19 @@ def check(ctx):
         check_harvester_normalisation(S, r4)
         check_type_text_splitting(P, r4)
         prefixes = sorted(set(lit_str(e["args"][0]) for e in body_deep if e.get("k") == "mcall" and e["method"] == "starts_with" and e["args"] and lit_str(e["args"][0])))
+        # ... or keeps the constructor prefixes in a constant table it loops over (`GENERIC_WRAPPERS: [(&str, ..); 7]`), tested with
+        # starts_with / strip_prefix of the table entry
+        from srclib import walk as _walk
+        prefixes = set(prefixes) | set(lit_str(e["args"][0]) for e in body_deep if e.get("k") == "mcall" and e["method"] == "strip_prefix" and e["args"] and lit_str(e["args"][0]))
+        uses_table_test = any(e.get("k") == "mcall" and e["method"] in ("starts_with", "strip_prefix") and e["args"] and lit_str(e["args"][0]) is None for e in body_deep)
+        if uses_table_test:
+            for e in body_deep:
+                if e.get("k") == "path" and e["segs"][-1] in S.consts:
+                    ce_ = S.consts[e["segs"][-1]].get("expr")
+                    for x_ in (_walk(ce_) if isinstance(ce_, dict) else []):
+                        v_ = lit_str(x_)
+                        if v_ is not None and v_.endswith("<"):
+                            prefixes.add(v_)
         need = {"Result<", "Option<", "Vec<", "HashMap<", "BTreeMap<", "HashSet<", "BTreeSet<"}
         if need <= set(prefixes):
             r4.ok("harvester unwraps %s" % sorted(need))
